@@ -134,7 +134,7 @@ class LocalQueueCandidates:
             tracking_scores: List of tracking scores from the cost matrix.
 
         """
-        if np.any(row_inds) and np.any(col_inds):
+        if row_inds is not None and len(row_inds) > 0:
             for idx, (row, col) in enumerate(zip(row_inds, col_inds)):
                 current_instances[row].track_id = col
                 current_instances[row].tracking_score = tracking_scores[idx]
